@@ -12,6 +12,7 @@ package c14
 // one runs is a violation too. Anything chsim cannot execute is discarded.
 
 import (
+	"os"
 	"errors"
 	"fmt"
 	"sort"
@@ -43,11 +44,21 @@ func genReexec(rt *rapid.T) reexecCase {
 	}
 	first, last := c.Params[0], c.Params[len(c.Params)-1]
 	switch c.Q.Kind {
-	case "traceql":
+	case "traceql", "tracetags":
 		db := c11.GenDB(rt, last.FromNs, last.FromNs+100e9)
 		c.Traces = &db
 	case "logql":
-		db := genLogDB(rt, first.FromNs, min64(last.ToNs, first.ToNs+10e9))
+		arrays := false
+		for _, f := range statefulStages(c.Q) {
+			arrays = arrays || f == "json-array-path"
+		}
+		want := map[string]string{}
+		for _, m := range c.Q.Log.Matchers {
+			if m.Op == "=" {
+				want[m.Name] = m.Val
+			}
+		}
+		db := genLogDB(rt, first.FromNs, min64(last.ToNs, first.ToNs+10e9), arrays, want)
 		c.Logs = &db
 	}
 	return c
@@ -125,6 +136,13 @@ func statefulStages(q querySpec) []string {
 			if s.Kind == refeval.KLineFilter && (s.Op == "|~" || s.Op == "!~") {
 				out = append(out, "regex-line-filter")
 			}
+			if s.Kind == refeval.KJSON {
+				for _, p := range s.Params {
+					if strings.Contains(p.Val, "[") {
+						out = append(out, "json-array-path")
+					}
+				}
+			}
 			if s.Kind == refeval.KUnwrap || s.Kind == refeval.KDrop || s.Kind == refeval.KLabelFilter {
 				out = append(out, "labels-cache-user")
 			}
@@ -199,6 +217,9 @@ func predReexec(c reexecCase, o *evid.Obs) error {
 				return nil
 			}
 			equivalent = true
+			if os.Getenv("C14_DEBUG") != "" {
+				fmt.Printf("DEBUG same rows: %s\n  reused: %s\n  fresh:  %s\n", c.Q.Text(), clip(reused[k]), clip(fresh[k]))
+			}
 		}
 	}
 	if failed > 0 {
